@@ -28,7 +28,7 @@ TOL = {"mass": 5e-4, "ratio": 5e-3, "norm": 2e-3, "mode": 1e-3, "loc": 2e-3, "va
 def cases(draw, est=None, max_n=20000):
     fam = draw(st.sampled_from(["normal", "skewnorm", "gamma", "lognormal", "t", "logistic"]))
     return {"seed": draw(st.integers(0, 2**31)), "family": fam, "estimator": est or draw(st.sampled_from(["kde", "unimodal"])),
-            "n": draw(st.sampled_from([300, 1000, 3000, max_n])) if est != "unimodal" else draw(st.sampled_from([300, 1000, 3000])),
+            "n": draw(st.sampled_from([300, 1000, 3000, max_n])) if est != "unimodal" else draw(st.sampled_from([300, 1000, 3000, 4000, 9000, 5000])),
             "shape": draw(st.floats(0, 1)),
             "loc_sd": draw(st.sampled_from([0.0, 0.0, 3.0, 1e2, -1e2, 1e4, -1e4, 1e6])),
             "log_scale": draw(st.sampled_from([0.0, 0.0, -6.0, 6.0, draw(st.floats(-6, 6))])),
